@@ -21,7 +21,8 @@ LEVEL = "exploration"
 TECHNIQUE = (
     "Hypothesis-generated AHAB configurations (device-database tuples x container/image arrays x key sets x flags x layouts) built through "
     "AHABImage.load_from_config; differential against an independent container walker/verifier (hashlib, own AES-CBC, own RSA-PSS/ECDSA) "
-    "calibrated on stored binaries incl. NXP-signed firmware containers; parse/verify round trip; single-bit tampering of authenticated bytes; "
+    "calibrated on stored binaries incl. NXP-signed firmware containers; named image kinds (uboot, atf, tee, ...) against the generic entry "
+    "spelled out from the device database (metamorphic); parse/verify round trip; single-bit tampering of authenticated bytes; "
     "about one case in six also through the real `nxpimage ahab export / verify / parse` commands (same walker on the exported file, SRK hash "
     "files, exit codes for valid / tampered / colliding inputs, dumped images)"
 )
